@@ -5,6 +5,7 @@ import Driver.Ops.Rematch
 import Driver.Ops.Audit
 import Driver.Ops.Equity
 import Driver.Ops.Price
+import Driver.Ops.GitSel
 /-! Line-protocol driver of the model: one JSON case per input line, one JSON answer per line.
     To add an op: write `Driver/Ops/<Name>.lean`, import it here, add one line to `opTable`
     (or to `outputTable` for a new output kind of op `run`). -/
@@ -28,7 +29,8 @@ def opTable : List (String × (Json → R Json)) := [
   ("audit", Ops.opAudit),
   ("hash", Ops.opHash),
   ("price", Ops.opPrice),
-  ("parse", Ops.opParse)
+  ("parse", Ops.opParse),
+  ("gitsel", Ops.opGitSel)
 ]
 
 def dispatch (j : Json) : R Json := do
